@@ -162,7 +162,7 @@ type CFile struct {
 	Wires    []*WireC
 }
 
-var clauseRe = regexp.MustCompile(`^(requires|relies|ensures|defines|invariant|decreases|assert|assume|panics)(\[[A-Za-z0-9,]+\])?\s+(.*)$`)
+var clauseRe = regexp.MustCompile(`^(requires|relies|ensures|defines|invariant|decreases|assert|assume|panics)(\[[A-Za-z0-9,:_-]+\])?\s+(.*)$`)
 var specRe = regexp.MustCompile(`^spec\s+([A-Za-z_][A-Za-z0-9_]*)\s*\(([^)]*)\)\s*([^=]+?)\s*(=\s*(.*))?$`)
 var lemmaRe = regexp.MustCompile(`^lemma(\[[A-Za-z0-9,]+\])?\s+([A-Za-z_][A-Za-z0-9_]*)\s*\(([^)]*)\)\s*(induct\s+([A-Za-z_][A-Za-z0-9_]*))?\s*$`)
 
